@@ -1,5 +1,5 @@
 #!/bin/bash
-# applies one seeded patch to /repo, runs the given checks, restores /repo.  usage: try_seeded.sh PATCH ID...
+# applies one seeded patch to /repo, runs the given checks (evidence redirected: /verif/evidence is only ever written from the unchanged tree), restores /repo.  usage: try_seeded.sh PATCH ID...
 patch=$1; shift
 cd /repo || exit 2
 if [ -n "$(git status --porcelain -- src)" ]; then echo "/repo/src is dirty"; exit 2; fi
@@ -7,7 +7,7 @@ if ! git apply "$patch" 2>/tmp/apply.err; then
   echo "APPLY-FAILED $(head -2 /tmp/apply.err)"; git checkout -- . ; exit 2
 fi
 for id in "$@"; do
-  (cd /verif && ./check $id quick 2>&1 | grep -E "^(OK|VIOLATION|UNDECIDED|FAILED-OBLIGATION)" | cut -c1-230 | head -4)
+  (cd /verif && VERIF_EVIDENCE_DIR=/tmp/verif-try-evidence ./check $id quick 2>&1 | grep -E "^(OK|VIOLATION|UNDECIDED|FAILED-OBLIGATION)" | cut -c1-230 | head -4)
 done
 git checkout -- . ; git clean -fdq -- src tests 2>/dev/null
 git status --porcelain | head -3
